@@ -29,6 +29,7 @@ PROP = {
                 "6": "a token that is not RS256 or whose signature does not verify under the key published under its kid passed",
                 "7": "an EXPIRED token passed (exp is never checked: the hook calls jws.Verify, not Validate - F4)", "8": "a NOT YET VALID token passed (nbf is never checked - F4)",
                 "9": "a currently valid token was rejected", "10": "an announce without a jwt parameter passed", "12": "a scrape was rejected by the JWT hook",
+                "14": "the hook panicked while deciding on a token (in the UDP frontend that takes the whole tracker down): no verdict at all",
                 "13": "a refresh that was served a well-formed JWK set failed (it cannot take effect for later announces)",
                 "20": "DATA RACE reported by the race detector between the refresh goroutine (write of hook.publicKeys in updateKeys) and HandleAnnounce (read) - F5",
                 "21": "during concurrent refreshes a verdict was neither the one under the old nor the one under the new key set",
